@@ -27,6 +27,7 @@ func checkC01(c *Ctx, r *Result, tier string) {
 	c01Siblings(c, r)
 	c01Pipeline(c, r)
 	c01Fresh(c, r)
+	c01MatchFormula(c, r)
 }
 
 // structFieldsRead: fields of struct type T read by fn and everything it reaches in the module.
@@ -1063,4 +1064,183 @@ func c01Fresh(c *Ctx, r *Result) {
 		r.Instance("R01f", key+"#result", pos, "ok", "Match returns a fresh slice", true)
 	}
 	r.Floor("R01f", n, 3)
+}
+
+// ---- R01g: the bit formula of the state matcher ---------------------------------------------------
+
+// RuleMatcherKey.match computes, with bit-parallel operators only (| & ^ &^), which candidate rules
+// survive the test of one state key. Bit-parallel formulas agree on all 64-bit words iff they
+// agree on single bits, so the formula is decided by its truth table over
+//   in   — the rule is still a candidate,        rb  — the rule constrains this key (rm.bits),
+//   any  — it accepts any value / a regex,        val — it demands exactly the event's value,
+// restricted by what addRule establishes (any ⇒ rb, val ⇒ rb, ¬(any ∧ val)). Specification:
+// survive = in ∧ (¬rb ∨ any ∨ val); when the event's value is not registered, val = 0.
+func c01MatchFormula(c *Ctx, r *Result) {
+	fn := c.Method("engine", "RuleMatcherKey", "match")
+	fBits := c.Field("engine", "RuleMatcherKey", "bits")
+	fAny := c.Field("engine", "RuleMatcherKey", "bitsAny")
+	fVal := c.Field("engine", "RuleMatcherKey", "bitsValue")
+	if fn == nil || fBits == nil || fAny == nil || fVal == nil || len(fn.Params) < 2 {
+		r.Undecide("R01g: RuleMatcherKey.match / its fields not found")
+		return
+	}
+	key := c.FuncKey(fn)
+	pos := c.Pos(fn.Pos())
+	inParam := fn.Params[1]
+	// the value entering the regex loop: the phi of the candidate mask in a loop header, edge from outside the loop
+	var start ssa.Value
+	for _, b := range fn.Blocks {
+		for _, in := range b.Instrs {
+			p, ok := in.(*ssa.Phi)
+			if !ok {
+				break
+			}
+			if !isLoopHeaderPhi(p) || !isIntType(p.Type()) {
+				continue
+			}
+			for i, pr := range b.Preds {
+				if !b.Dominates(pr) && start == nil {
+					start = p.Edges[i]
+				}
+			}
+		}
+	}
+	if start == nil {
+		// no regex loop: the returned value
+		rvs := returnedValues(fn, 0)
+		if len(rvs) == 1 {
+			start = rvs[0]
+		}
+	}
+	if start == nil {
+		r.Undecide("R01g: the candidate mask computed by %s before the regex loop was not found", key)
+		return
+	}
+	type env struct{ in, rb, any, val, found uint64 }
+	var eval func(v ssa.Value, e env, d int) (uint64, bool)
+	eval = func(v ssa.Value, e env, d int) (uint64, bool) {
+		if d > 40 {
+			return 0, false
+		}
+		switch x := v.(type) {
+		case *ssa.Parameter:
+			if x == inParam {
+				return e.in, true
+			}
+		case *ssa.Const:
+			if k, ok := constInt(x); ok {
+				if k == 0 {
+					return 0, true
+				}
+				return 0, false
+			}
+		case *ssa.UnOp:
+			if x.Op == token.MUL {
+				if fa, ok := x.X.(*ssa.FieldAddr); ok {
+					switch fieldVar(fa) {
+					case fBits:
+						return e.rb, true
+					case fAny:
+						return e.any, true
+					}
+				}
+			}
+			if x.Op == token.XOR { // ^x
+				a, ok := eval(x.X, e, d+1)
+				return ^a & 1, ok
+			}
+		case *ssa.Extract:
+			if lk, ok := x.Tuple.(*ssa.Lookup); ok && x.Index == 0 {
+				if ld, ok := lk.X.(*ssa.UnOp); ok {
+					if fa, ok := ld.X.(*ssa.FieldAddr); ok && fieldVar(fa) == fVal {
+						if e.found == 0 {
+							return 0, true
+						}
+						return e.val, true
+					}
+				}
+			}
+		case *ssa.BinOp:
+			a, ok1 := eval(x.X, e, d+1)
+			b, ok2 := eval(x.Y, e, d+1)
+			if !ok1 || !ok2 {
+				return 0, false
+			}
+			switch x.Op {
+			case token.OR:
+				return a | b, true
+			case token.AND:
+				return a & b, true
+			case token.XOR:
+				return a ^ b, true
+			case token.AND_NOT:
+				return a &^ b, true
+			}
+		case *ssa.Phi:
+			// choose the edge by whether the block it comes from is under "value registered"
+			var foundEdge, otherEdge ssa.Value
+			for i, pr := range x.Block().Preds {
+				under := false
+				if len(pr.Instrs) > 0 {
+					for fv := range FactsAt(pr.Instrs[len(pr.Instrs)-1]).TrueV {
+						if ex, ok := fv.(*ssa.Extract); ok && ex.Index == 1 {
+							if lk, ok := ex.Tuple.(*ssa.Lookup); ok {
+								if ld, ok := lk.X.(*ssa.UnOp); ok {
+									if fa, ok := ld.X.(*ssa.FieldAddr); ok && fieldVar(fa) == fVal {
+										under = true
+									}
+								}
+							}
+						}
+					}
+				}
+				if under {
+					foundEdge = x.Edges[i]
+				} else {
+					if otherEdge != nil && otherEdge != x.Edges[i] {
+						return 0, false
+					}
+					otherEdge = x.Edges[i]
+				}
+			}
+			if e.found == 1 && foundEdge != nil {
+				return eval(foundEdge, e, d+1)
+			}
+			if otherEdge != nil {
+				return eval(otherEdge, e, d+1)
+			}
+		}
+		return 0, false
+	}
+	var bad []string
+	n := 0
+	for found := uint64(0); found <= 1; found++ {
+		for m := 0; m < 16; m++ {
+			e := env{in: uint64(m & 1), rb: uint64(m >> 1 & 1), any: uint64(m >> 2 & 1), val: uint64(m >> 3 & 1), found: found}
+			if (e.any == 1 && e.rb == 0) || (e.val == 1 && e.rb == 0) || (e.any == 1 && e.val == 1) {
+				continue
+			}
+			if found == 0 && e.val == 1 {
+				continue
+			}
+			n++
+			got, ok := eval(start, e, 0)
+			if !ok {
+				r.Undecide("R01g: the candidate mask of %s is not a bit-parallel formula over its parameter, rm.bits, rm.bitsAny and rm.bitsValue[value]", key)
+				return
+			}
+			want := e.in & ((^e.rb & 1) | e.any | e.val)
+			if got&1 != want {
+				bad = append(bad, fmt.Sprintf("candidate=%d constrains-key=%d any/regex=%d demands-event-value=%d value-registered=%d: survives=%d, expected %d", e.in, e.rb, e.any, e.val, found, got&1, want))
+			}
+		}
+	}
+	if len(bad) > 0 {
+		r.Instance("R01g", key+"#formula", pos, "finding", strings.Join(bad, "; "), true)
+		r.Report(Finding{Rule: "R01g", Site: key + "#formula", Pos: pos,
+			Msg: key + ": the bit formula deciding which rules survive a state key disagrees with `candidate ∧ (rule does not constrain the key ∨ accepts any value ∨ demands the event's value)` for: " + strings.Join(bad, "; ")})
+		return
+	}
+	r.Instance("R01g", key+"#formula", pos, "ok", fmt.Sprintf("truth table (%d admissible single-bit assignments) equals the specification", n), true)
+	r.Floor("R01g", n, 10)
 }
